@@ -90,9 +90,10 @@ class Children:
 
 class C10:
     prop = 'C10'
-    cases = {'quick': 150, 'thorough': 900}
+    cases = {'quick': 240, 'thorough': 900}
     hashseeds = {'quick': [0, 1, 2], 'thorough': [0, 1, 2, 3, 4, 5, 6, 7]}
-    technique = "differential property-based testing: the same generated scenario in K interpreters with different PYTHONHASHSEED, twice in each"
+    technique = ("differential property-based testing: the same generated scenario in K interpreters with different PYTHONHASHSEED, twice in each, "
+                 "plus runs interleaved with another simulation, with a DelayModel object shared by two simulations, and under a wall clock that jumps")
     rule = ("scenarios (all shipped pairings, wide DAG fronts with several ready tasks and few machines, shipped DelayModel with generated "
             "prob/degree/seed/distribution) are run twice in each of K child interpreters started with PYTHONHASHSEED 0..K-1 (quick K=3, "
             "thorough K=8); child k>0 runs a related decoy simulation first (other machine speeds / delay seed), so interpreters differ in "
